@@ -66,6 +66,8 @@ pub struct Reporter {
     pub assumptions: Vec<String>,
     pub coverage: serde_json::Map<String, Value>,
     pub flavour: String,
+    /// the unchecked-flavour child, when it was started ahead of time
+    child: Option<std::process::Child>,
 }
 
 impl Reporter {
@@ -96,6 +98,7 @@ impl Reporter {
             assumptions: vec![],
             coverage: serde_json::Map::new(),
             flavour: if cfg!(debug_assertions) { "checked".into() } else { "unchecked".into() },
+            child: None,
         }
     }
 
@@ -130,6 +133,22 @@ impl Reporter {
         self.known.iter().find(|k| k.property == self.property && k.status == "known" && k.signature == sig)
     }
 
+    /// Start the unchecked-flavour child now, so that it runs alongside the checked flavour;
+    /// `merge_unchecked_flavour` collects it.
+    pub fn start_unchecked_flavour(&mut self) {
+        if std::env::var("VERIF_SUB").is_ok() {
+            return;
+        }
+        let exe = format!("{VERIF}/target/mc/unchecked/mc");
+        match std::process::Command::new(&exe).arg(&self.property).arg(self.tier.name()).env("VERIF_SUB", "1").stdout(std::process::Stdio::piped()).stderr(std::process::Stdio::piped()).spawn() {
+            Ok(c) => self.child = Some(c),
+            Err(e) => {
+                eprintln!("machinery error: cannot run {exe}: {e}");
+                std::process::exit(2);
+            }
+        }
+    }
+
     /// Run the same check in the `unchecked` build flavour (plain release: no debug
     /// assertions, no overflow checks) as a child process and merge what it found.
     pub fn merge_unchecked_flavour(&mut self) {
@@ -137,11 +156,10 @@ impl Reporter {
             return;
         }
         let exe = format!("{VERIF}/target/mc/unchecked/mc");
-        let out = std::process::Command::new(&exe)
-            .arg(&self.property)
-            .arg(self.tier.name())
-            .env("VERIF_SUB", "1")
-            .output();
+        let out = match self.child.take() {
+            Some(c) => c.wait_with_output(),
+            None => std::process::Command::new(&exe).arg(&self.property).arg(self.tier.name()).env("VERIF_SUB", "1").output(),
+        };
         let out = match out {
             Ok(o) => o,
             Err(e) => {
